@@ -640,3 +640,44 @@ def deep_origins(db, fn, op_or_place, through=None, depth=0):
         r["fn"] = fn
         out.append(r)
     return out
+
+
+def flag_true_sites(fn, switch_site):
+    """for a bool switch on a flag local assigned only constants in several branches (the lowering of `matches!`,
+    `a && b`, `a || b`): the sites that assign `true` (and `false`)"""
+    t = fn.term(switch_site.bb)
+    p = op_place(t["discr"])
+    if p is None:
+        return None
+    local = p[0]
+    # follow one copy
+    ds = [d for d in fn.defs().get(local, []) if d[1] == "assign"]
+    if len(ds) == 1 and ds[0][2]["rv"]["k"] == "use" and op_place(ds[0][2]["rv"]["op"]) is not None:
+        local = op_place(ds[0][2]["rv"]["op"])[0]
+        ds = [d for d in fn.defs().get(local, []) if d[1] == "assign"]
+    trues, falses = [], []
+    for site, kind, s in ds:
+        rv = s["rv"]
+        if rv["k"] == "use" and rv["op"].get("k") == "const" and rv["op"].get("val") in ("true", "false"):
+            (trues if rv["op"]["val"] == "true" else falses).append(site)
+        else:
+            return None
+    if not trues and not falses:
+        return None
+    return trues, falses
+
+
+def edge_guards(fn, edge, target):
+    """target executes only if `edge` was taken: plain edge dominance, or dominance through a `matches!`-style flag"""
+    if fn.edge_dominates(edge, target):
+        return True
+    for site, t in fn.switches():
+        if t["dty"] != "bool":
+            continue
+        te = fn.edge_of(site, "true")
+        if not (te and fn.edge_dominates(te, target)):
+            continue
+        ft = flag_true_sites(fn, site)
+        if ft and ft[0] and all(fn.edge_dominates(edge, s) for s in ft[0]):
+            return True
+    return False
